@@ -8,7 +8,7 @@
     position (distinct selection sets of a parsed document open at distinct positions); every other
     pointer-keyed map of TypeInfo is modelled by a slot in the node itself (each node is visited
     exactly once by NewTypeInfo's traversal). *)
-From Coq Require Import List NArith Bool String Ascii.
+From Coq Require Import List NArith ZArith Bool String Ascii.
 From ApiFu Require Import Base.Sexp.
 Import ListNotations.
 
@@ -47,7 +47,11 @@ Definition vkind_eqb (a b : vkind) : bool :=
 
 (** a scalar's LiteralCoercion: the five built-ins, or a harness scalar accepting exactly the
     listed literal kinds ([SCustom None]: LiteralCoercion == nil, nothing is ever refused) *)
-Inductive scalar := SInt | SFloat | SString | SBoolean | SID | SCustom (accepts : option (list vkind)).
+(** a refinement of what a scalar's LiteralCoercion accepts beyond the kind of the literal: apifu's
+    LongInt (integers in a range) and DateTime (strings a parser accepts) *)
+Inductive lit_pred := PIntRange (lo hi : Z) | PStringIn (ok : bytes -> bool).
+Inductive scalar := SInt | SFloat | SString | SBoolean | SID | SCustom (accepts : option (list vkind))
+                  | SRefined (accepts : option (list vkind)) (refine : lit_pred).
 
 Inductive type_body :=
 | TScalar (k : scalar)
